@@ -163,8 +163,8 @@ func (r *Run) N(quick, thorough int) int {
 	return quick
 }
 
-func (r *Run) SetRule(s string)   { r.mu.Lock(); r.rule = s; r.mu.Unlock() }
-func (r *Run) SetFloor(n int)     { r.mu.Lock(); r.floor = n; r.mu.Unlock() }
+func (r *Run) SetRule(s string)     { r.mu.Lock(); r.rule = s; r.mu.Unlock() }
+func (r *Run) SetFloor(n int)       { r.mu.Lock(); r.floor = n; r.mu.Unlock() }
 func (r *Run) SetExhaustive(b bool) { r.mu.Lock(); r.exhaustive = b; r.mu.Unlock() }
 func (r *Run) Assume(s string) {
 	r.mu.Lock()
@@ -173,7 +173,7 @@ func (r *Run) Assume(s string) {
 }
 
 // Eval counts one executed case.
-func (r *Run) Eval() { r.mu.Lock(); r.evals++; r.mu.Unlock() }
+func (r *Run) Eval()       { r.mu.Lock(); r.evals++; r.mu.Unlock() }
 func (r *Run) Evals(n int) { r.mu.Lock(); r.evals += int64(n); r.mu.Unlock() }
 
 // Nontrivial records a distinct non-trivial case by key (deduplicated).
